@@ -105,6 +105,34 @@ Theorem c21_dialect_table_bounded : forall md5_hex tbl, table_ok tbl = true ->
 Proof. exact table_within_maxid. Qed.
 Print Assumptions c21_dialect_table_bounded.
 
+(* ================= an engine whose dialect detects its limit on first connect ================= *)
+(* DefaultDialect.initialize: the engine starts with the detected (or user-fixed) limit and a label
+   length that fits it, or refuses with ArgumentError exactly when label_length exceeds that limit *)
+Theorem c21_initialize_ok : forall class_maxid user_maxid label_length detected m,
+  initialize class_maxid user_maxid label_length detected = Ok m ->
+  m = (if truthy user_maxid then py_or user_maxid class_maxid
+       else py_or detected (py_or user_maxid class_maxid))
+  /\ py_or label_length m <= m.
+Proof. exact initialize_ok. Qed.
+Print Assumptions c21_initialize_ok.
+Theorem c21_initialize_error_iff : forall class_maxid user_maxid label_length detected e,
+  initialize class_maxid user_maxid label_length detected = Raise e <->
+  (e = ArgumentError /\ exists l, label_length = Some l /\ l <> 0
+     /\ (if truthy user_maxid then py_or user_maxid class_maxid
+         else py_or detected (py_or user_maxid class_maxid)) < l).
+Proof. exact initialize_error_iff. Qed.
+Print Assumptions c21_initialize_error_iff.
+(* every label / alias / anonymous bind name compiled through a started engine fits the identifier limit
+   in force after the first connection *)
+Theorem c21_engine_labels_within_identifier_limit : forall benv class_maxid user_maxid label_length detected m rs st os,
+  initialize class_maxid user_maxid label_length detected = Ok m -> 6 <= py_or label_length m ->
+  (N.of_nat (length rs) < 1048576)%N ->
+  run benv (py_or label_length m) init_state rs = Ok (st, os) ->
+  (forall c n o, In (RName c (LTrunc n), o) (combine rs os) -> slen o <= m)
+  /\ (forall oid t o, In (RBind oid, o) (combine rs os) -> b_key (benv oid) = BTrunc t -> slen o <= m).
+Proof. exact engine_labels_within_identifier_limit. Qed.
+Print Assumptions c21_engine_labels_within_identifier_limit.
+
 (* ================= rendering of counters ================= *)
 (* hex(n)[2:] / str(n) are modelled by a real digit function: it denotes n (so the fuel suffices),
    is injective, and has at most k digits exactly below base^k *)
@@ -241,6 +269,10 @@ Example c21_ex_run :
       = Ok (st, [[97; 97; 97; 97; 95; 49]; [97; 97; 97; 97; 95; 50]; [97; 97; 97; 97; 95; 49];
                  [97; 97; 97; 97; 95; 49]]%N).
 Proof. eexists. vm_compute. reflexivity. Qed.
+Example c21_ex_initialize : initialize 128 None (Some 48) (Some 30) = Raise ArgumentError
+                            /\ initialize 128 None (Some 29) (Some 30) = Ok 30
+                            /\ initialize 128 (Some 40) (Some 35) (Some 30) = Ok 40.
+Proof. repeat split. Qed.
 Example c21_ex_bind_conflict :
   let benv := fun oid => if (oid =? 0)%N
                          then {| b_key := BPlain [120; 95; 49]%N; b_unique := false; b_expanding := false |}
